@@ -6,5 +6,6 @@ CONSTANTS
   Schemes = {"M"}
   Leaves = {"int", "string"}
   Emit = TRUE
+  KeyMode = "plain"
 INVARIANTS PrintCase
 CHECK_DEADLOCK FALSE
